@@ -53,7 +53,9 @@ CCTP_DOMAINS = [0, 1, 5]
 PROTO_NAMES = ["PROTOCOL_IBC", "PROTOCOL_CCTP", "PROTOCOL_HYPERLANE", "PROTOCOL_INTERNAL"]
 ACTION_NAMES = ["ACTION_FEE", "ACTION_SWAP"]
 
-AMOUNTS = [1, 2, 9999, 10000, 10001, 123456789, 10 ** 18, 2 ** 64 - 1, 2 ** 64 + 1]
+AMOUNTS = [1, 2, 9999, 10000, 10001, 123456789, 10 ** 18, 2 ** 64 - 1, 2 ** 64 + 1,
+           # the widths of the machine integers and what a basis-point product makes of them
+           2 ** 31, 2 ** 32, 2 ** 53 + 1, 2 ** 63 - 1, 2 ** 63, 2 ** 64 // 10000, 2 ** 64 // 10000 + 1, 2 ** 64 // 100 + 1, 10 ** 19, 2 ** 64, 2 ** 128]
 BPS = [1, 2, 50, 100, 2500, 9999, 10000]
 
 
